@@ -6,7 +6,7 @@
   Reading guide. `W` is the `where` filter (a predicate on placeholder tags; `fun _ => true` is
   "no filter"). A value is a template without selected placeholders. `validG false g d` is exactly
   what `DNASpec.validate` accepts, `validG true g d` additionally forbids a stray value on a node
-  whose children carry the decisions (finding F53). `nfD d` says that `d` is a DNA object (what
+  whose children carry the decisions (finding F85). `nfD d` says that `d` is a DNA object (what
   the `DNA` constructor can produce). `wfT t` is what the constructors of `OneOf` / `ManyOf` /
   `geno.Choices` enforce (`OneOf` has one choice, `num_choices >= 1`).
 -/
@@ -87,7 +87,7 @@ def tTwoFloats : Tmpl :=
 def dStray : DNA := .mk (some (.idx 5)) [.mk (some (.flt ⟨0, 0⟩)) [], .mk (some (.flt ⟨1, 0⟩)) []]
 
 /-- The full statement fails on the pinned tree: `validate` and `decode` ignore a stray
-value on the root of a multi-element space, `encode` returns `DNA([0.0, 1.0])` (finding F53,
+value on the root of a multi-element space, `encode` returns `DNA([0.0, 1.0])` (finding F85,
 replayed on the code on every run). -/
 theorem C13_inverse_counterexample : ¬ C13_inverse_Full := by
   intro h
